@@ -40,3 +40,75 @@ End Link.
 
 Print Assumptions gen_offstep_eq_model.
 Print Assumptions gen_offstep_callback.
+
+(* ---------------------------------------------------------------------------------------------------------------------------
+   collect_learning_starts and collect_rollout (off_policy.py), executed symbolically together with the step they scan: the step is
+   folded over jr.split(key, learning_starts) resp. jr.split(key, num_steps), threading (buffer, callback state, environment state,
+   policy state); = OffPolicy.off_scan over the same keys.  props/C05.v proves "warm-up stores exactly learning_starts transitions,
+   every collection adds num_steps" about off_scan. *)
+Section Scans.
+  Context {S PS O CB : Type}.
+  Variable E : env S Q O.
+  Variable P : acpol PS Q O.
+  Variable cb_step : CB -> bool -> Q -> kpath -> CB.
+
+  Section Generic.
+    Variable F : @obuf PS O * CB * S * PS -> kpath -> (@obuf PS O * CB * S * PS) * unit.
+    Hypothesis HF : forall b c es ps k,
+      let r := fst (F (b, c, es, ps) k) in
+      ((snd (fst r), snd r), fst (fst (fst r))) = off_step E P ((es, ps), b) k.
+
+    Lemma kfoldmap_off_scan keys : forall b c es ps,
+      let r := fst (kfoldmap F (b, c, es, ps) keys) in
+      ((let '(p0, p1, p2, p3) := r in p2, let '(p0, p1, p2, p3) := r in p3), let '(p0, p1, p2, p3) := r in p0) = off_scan E P ((es, ps), b) keys.
+    Proof.
+      induction keys as [|k keys IH]; intros b c es ps; [reflexivity|].
+      cbn [kfoldmap off_scan fold_left]. cbv zeta.
+      pose proof (HF b c es ps k) as H. cbv zeta in H.
+      destruct (F (b, c, es, ps) k) as [[[[b' c'] es'] ps'] u]. cbn [fst snd] in *.
+      rewrite <- H. specialize (IH b' c' es' ps'). cbv zeta in IH. exact IH.
+    Qed.
+  End Generic.
+
+  Variables (n : nat) (es : S) (ps : PS) (cbs : CB) (k : kpath).
+  Variable buf : @obuf PS O.
+
+  Theorem gen_offwarm_eq_model :
+    ((@gen_offwarm_env_state S PS O CB n E P cb_step es ps cbs buf k, @gen_offwarm_policy_state S PS O CB n E P cb_step es ps cbs buf k),
+     @gen_offwarm_buffer S PS O CB n E P cb_step es ps cbs buf k) = off_scan E P ((es, ps), buf) (split_keys k n).
+  Proof.
+    unfold gen_offwarm_env_state, gen_offwarm_policy_state, gen_offwarm_buffer.
+    rewrite !Nat2Z.id.
+    change (ksplit_keys k n) with (split_keys k n).
+    match goal with |- context [kfoldmap ?f _ _] => set (F := f) end.
+    assert (HF : forall b c es0 ps0 k0,
+      let r := fst (F (b, c, es0, ps0) k0) in
+      ((snd (fst r), snd r), fst (fst (fst r))) = off_step E P ((es0, ps0), b) k0).
+    { intros b c es0 ps0 k0. subst F. unfold off_step. cbv beta iota zeta.
+      destruct (p_act P ps0 (e_obs E es0 (ks k0 9 2)) (ks k0 9 0) None) as [[[ps1 a] v] lp].
+      cbn [fst snd]. unfold clip_action, sp_is_box, sp_lo, sp_hi. destruct (e_asp E); reflexivity. }
+    pose proof (kfoldmap_off_scan F HF (split_keys k n) buf cbs es ps) as HK. cbv zeta in HK.
+    exact HK.
+  Qed.
+
+  Theorem gen_offcollect_eq_model :
+    ((@gen_offcollect_env_state S PS O CB n E P cb_step es ps cbs buf k, @gen_offcollect_policy_state S PS O CB n E P cb_step es ps cbs buf k),
+     @gen_offcollect_buffer S PS O CB n E P cb_step es ps cbs buf k) = off_scan E P ((es, ps), buf) (split_keys k n).
+  Proof.
+    unfold gen_offcollect_env_state, gen_offcollect_policy_state, gen_offcollect_buffer.
+    rewrite !Nat2Z.id.
+    change (ksplit_keys k n) with (split_keys k n).
+    match goal with |- context [kfoldmap ?f _ _] => set (F := f) end.
+    assert (HF : forall b c es0 ps0 k0,
+      let r := fst (F (b, c, es0, ps0) k0) in
+      ((snd (fst r), snd r), fst (fst (fst r))) = off_step E P ((es0, ps0), b) k0).
+    { intros b c es0 ps0 k0. subst F. unfold off_step. cbv beta iota zeta.
+      destruct (p_act P ps0 (e_obs E es0 (ks k0 9 2)) (ks k0 9 0) None) as [[[ps1 a] v] lp].
+      cbn [fst snd]. unfold clip_action, sp_is_box, sp_lo, sp_hi. destruct (e_asp E); reflexivity. }
+    pose proof (kfoldmap_off_scan F HF (split_keys k n) buf cbs es ps) as HK. cbv zeta in HK.
+    exact HK.
+  Qed.
+End Scans.
+
+Print Assumptions gen_offwarm_eq_model.
+Print Assumptions gen_offcollect_eq_model.
